@@ -1,6 +1,8 @@
 //@ property: C13
 //@ mount: src/sighash.rs
 //@ functions: src/sighash.rs::SighashCache::witness_mut, src/sighash.rs::SighashCache::encode_segwitv0_signing_data_to, src/sighash.rs::SighashCache::taproot_encode_signing_data_to, src/sighash.rs::SighashCache::common_cache, src/sighash.rs::SighashCache::segwit_cache, src/sighash.rs::SighashCache::taproot_cache
+// STATUS: only `witness_mut_frame` is verified and registered. The two history harnesses compile but were not run to
+// completion within the budget (each contains three full encoder runs; one encoder run costs 6-7 min, see c13_prevouts_one.rs).
 //
 // Cache discipline: a query answered by a cache that has already answered other queries (and had witnesses filled in
 // through `witness_mut` in between) is byte-identical to the same query on a fresh cache.
@@ -97,8 +99,8 @@ fn taproot_query(cache: &mut SighashCache<&mut Transaction>, prev: &[TxOut], t: 
 }
 
 stubbed! {
-//@ harness: cache_segwit_then_segwit class=B tier=thorough bound="1 input / 1 output transaction; history = segwit-v0 ALL query, witness_mut push, segwit-v0 query of any of the six types; compared with that query on a fresh cache" props=C13 timeout=1500
-//@ clause: after a first segwit-v0 query has filled the common and segwit caches and a witness was pushed through the cache, a second segwit-v0 query (any hash type) writes exactly the message a fresh cache writes
+//@ unregistered-harness: cache_segwit_then_segwit class=B tier=thorough bound="1 input / 1 output transaction; history = segwit-v0 ALL query, witness_mut push, segwit-v0 query of any of the six types; compared with that query on a fresh cache" props=C13 timeout=1500
+//@ unregistered-clause: after a first segwit-v0 query has filled the common and segwit caches and a witness was pushed through the cache, a second segwit-v0 query (any hash type) writes exactly the message a fresh cache writes
 fn cache_segwit_then_segwit() {
     let mut tx = mk_tx();
     let sc = Script::from(vec![kani::any::<u8>()]);
@@ -129,8 +131,8 @@ fn cache_segwit_then_segwit() {
 }
 
 stubbed! {
-//@ harness: cache_segwit_then_taproot class=B tier=thorough bound="1 input / 1 output transaction; history = segwit-v0 ALL query, witness_mut push, taproot DEFAULT query with Prevouts::All; compared with a fresh cache" props=C13 timeout=1500
-//@ clause: a taproot query issued after a segwit-v0 query (which filled the shared common cache) writes exactly the message a fresh cache writes
+//@ unregistered-harness: cache_segwit_then_taproot class=B tier=thorough bound="1 input / 1 output transaction; history = segwit-v0 ALL query, witness_mut push, taproot DEFAULT query with Prevouts::All; compared with a fresh cache" props=C13 timeout=1500
+//@ unregistered-clause: a taproot query issued after a segwit-v0 query (which filled the shared common cache) writes exactly the message a fresh cache writes
 fn cache_segwit_then_taproot() {
     let mut tx = mk_tx();
     let sc = Script::from(vec![kani::any::<u8>()]);
